@@ -1,6 +1,7 @@
 (** Proofs about the phase-shift circuits of Qubitization.QubitModel, for every number of
     encoding qubits. *)
 From Qib Require Export Qubitization.QubitModel.
+From Coq Require Qcanon.
 Local Open Scope Z_scope.
 
 (* ------------------------------------------------------------------ lists / bits *)
@@ -76,16 +77,9 @@ Qed.
 Definition q2 (z : Z) : Q := inject_Z (2 ^ z).
 Definition zq (md z : Z) : Q := (inject_Z z / q2 md)%Q.
 
-Lemma q2_nz z : ~ (q2 z == 0)%Q.
-Proof.
-  unfold q2. intros H. change 0%Q with (inject_Z 0) in H. apply inject_Z_injective in H.
-  destruct (Z_le_gt_dec 0 z).
-  - pose proof (Z.pow_pos_nonneg 2 z ltac:(lia) ltac:(lia)). lia.
-  - rewrite Z.pow_neg_r in H by lia. Abort.
-
 Lemma q2_nz z : 0 <= z -> ~ (q2 z == 0)%Q.
 Proof.
-  unfold q2. intros Hz H. change 0%Q with (inject_Z 0) in H. apply inject_Z_injective in H.
+  unfold q2. intros Hz H. unfold Qeq in H. cbn [Qnum Qden inject_Z] in H.
   pose proof (Z.pow_pos_nonneg 2 z ltac:(lia) Hz). lia.
 Qed.
 
@@ -179,8 +173,9 @@ Proof.
   intros Hn. unfold cphase_circuit. cbn [ideal_cphase cp_max_den cp_first_coef cp_first_tgt
     cp_lo cp_hi cp_loop_coef cp_loop_tgt cp_loop_nctrl cp_glob_coef].
   f_equal. f_equal.
-  replace (Z.of_nat n) with (1 + Z.of_nat (n - 1)) at 2 by lia.
-  rewrite zrange_nat, map_map. rewrite <- seq_shift, map_map.
+  assert (E : zrange 1 (Z.of_nat n) = map (fun k => 1 + Z.of_nat k) (seq 0 (n - 1))).
+  { replace (Z.of_nat n) with (1 + Z.of_nat (n - 1)) by lia. apply zrange_nat. }
+  rewrite E, map_map. rewrite <- seq_shift, map_map.
   apply map_ext. intros k. unfold loop_gate.
   replace (Z.to_nat (1 + Z.of_nat k)) with (Datatypes.S k) by lia.
   replace (1 + Z.of_nat k) with (Z.of_nat (Datatypes.S k)) by lia. reflexivity.
@@ -275,13 +270,13 @@ Proof.
   rewrite E1, first_gate_units by assumption. cbn [run_phq gate_phq gate_perm].
   rewrite glob_coef_units by assumption.
   rewrite Qplus_0_r, !zq_add by assumption.
-  assert (Z : zl b 0 + (zlsum (map (zl b) (seq 1 (n - 1))) + (1 - 2 ^ md))
+  assert (EZ : zl b 0 + (zlsum (map (zl b) (seq 1 (n - 1))) + (1 - 2 ^ md))
               = zloop n b + (1 - 2 ^ md)).
   { unfold zloop. destruct n as [|n']; [lia|]. rewrite <- cons_seq. cbn [map zlsum fold_right].
     replace (Datatypes.S n' - 1)%nat with n' by lia. fold (zlsum (map (zl b) (seq 1 n'))). lia. }
-  rewrite Z. unfold md. rewrite (zloop_total n b Hb Hn). fold md.
+  rewrite EZ. unfold md. rewrite (zloop_total n b Hb Hn). fold md.
   unfold zq. destruct (forallb negb b).
-  - field. apply q2_nz; assumption.
+  - change (inject_Z (2 ^ md)) with (q2 md). field. apply q2_nz; assumption.
   - replace (- 2 ^ md) with ((-1) * 2 ^ md) by lia. rewrite inject_Z_mult. fold (q2 md).
     change (inject_Z (-1)) with (-1 # 1)%Q. field. apply q2_nz; assumption.
 Qed.
@@ -293,13 +288,14 @@ Theorem aux_phase_sum n b : length b = n ->
   (run_phq (aux_circuit ideal_aux n) (false :: b) == if forallb negb b then 1 else -1)%Q.
 Proof.
   intros Hb. unfold aux_circuit. cbn [ideal_aux ax_order ax_rz_coef map].
-  cbn [run_bits run_phq gate_perm gate_phq].
-  rewrite !active_ctrl_list. cbn [skipn]. subst n. rewrite zeros_upto_all.
+  assert (A : forall a, active (ctrl_list 1 n) (a :: b) = forallb negb b).
+  { intros a. rewrite active_ctrl_list. cbn [skipn]. subst n. apply zeros_upto_all. }
+  cbn [run_bits run_phq gate_perm gate_phq]. rewrite (A false).
   destruct (forallb negb b) eqn:E.
-  - cbn [flip negb]. rewrite active_ctrl_list. cbn [skipn]. rewrite zeros_upto_all, E.
-    cbn [flip negb nth]. split; [reflexivity|]. unfold rzq. rewrite Qred_correct. field.
-  - rewrite active_ctrl_list. cbn [skipn]. rewrite zeros_upto_all, E.
-    cbn [nth]. split; [reflexivity|]. unfold rzq. rewrite Qred_correct. field.
+  - cbn [flip negb]. rewrite !(A true), ?E. cbn [flip negb nth]. split; [reflexivity|].
+    unfold rzq. rewrite Qred_correct. field.
+  - rewrite !(A false), ?E. cbn [nth]. split; [reflexivity|].
+    unfold rzq. rewrite Qred_correct. field.
 Qed.
 
 (* ------------------------------------------------------------------ matrices *)
@@ -334,7 +330,7 @@ Section Matrices.
   Variable u : K.
   Hypothesis Hu : u * u^* = 1.
 
-  Lemma kpow_conj k : (kpow u k)^* = kpow (u^*) k.
+  Lemma kpow_conj (v : K) k : (kpow v k)^* = kpow (v^*) k.
   Proof. induction k as [|k IH]; cbn; [apply (conj_1 K L)|]. rewrite (conj_mul K L), IH. reflexivity. Qed.
 
   Lemma upow_0 : upow u 0 = 1.
@@ -373,9 +369,15 @@ Section Matrices.
   Qed.
 
   Lemma upow_1 : upow u 1 = u.
-  Proof. unfold upow. cbn. ring. Qed.
+  Proof.
+    unfold upow. change (Z.to_nat 1) with 1%nat. change (Z.to_nat (- (1))) with 0%nat.
+    cbn [kpow]. ring.
+  Qed.
   Lemma upow_m1 : upow u (-1) = u^*.
-  Proof. unfold upow. cbn. ring. Qed.
+  Proof.
+    unfold upow. change (Z.to_nat (-1)) with 0%nat. change (Z.to_nat (- (-1))) with 1%nat.
+    cbn [kpow]. ring.
+  Qed.
 
   (* -------------------------------------------------------------- rational phases as powers *)
   Lemma qunits_proper md q q' : (q == q')%Q -> qunits md q = qunits md q'.
@@ -389,7 +391,7 @@ Section Matrices.
   Proof.
     intros H. unfold qunits.
     rewrite (Qred_complete (zq md z * inject_Z (2 ^ md)) (inject_Z z)).
-    - rewrite Qred_identity; [reflexivity|]. cbn. apply Z.gcd_1_r.
+    - rewrite Qcanon.Qred_identity; [reflexivity|]. cbn. apply Z.gcd_1_r.
     - unfold zq. fold (q2 md). field. apply q2_nz; assumption.
   Qed.
 
@@ -423,19 +425,19 @@ Section Matrices.
     rewrite ideal_circuit_shape by assumption.
     set (md := (Z.of_nat n - 1)%Z). assert (Hmd : (0 <= md)%Z) by (unfold md; lia).
     cbn [run_phK gate_perm].
-    rewrite (run_phK_map_diag (loop_gate md) (zl c) md c) by
-      (try assumption; intros k Hk; apply in_seq in Hk; split;
+    rewrite (run_phK_map_diag (loop_gate md) (zl c) md c _ _ Hmd) by
+      (intros k Hk; apply in_seq in Hk; split;
        [apply loop_gate_units; unfold md; lia|reflexivity]).
     rewrite (upow_q_units md _ _ Hmd (first_gate_units md c Hmd)).
     cbn [run_phK gate_phq gate_perm].
     rewrite (upow_q_units md _ _ Hmd (glob_coef_units md Hmd)).
     transitivity (upow u (zl c 0 + (zlsum (map (zl c) (seq 1 (n - 1))) + (1 - 2 ^ md)))%Z).
     { rewrite !upow_add. ring. }
-    assert (Z : (zl c 0 + (zlsum (map (zl c) (seq 1 (n - 1))) + (1 - 2 ^ md))
+    assert (EZ : (zl c 0 + (zlsum (map (zl c) (seq 1 (n - 1))) + (1 - 2 ^ md))
                 = zloop n c + (1 - 2 ^ md))%Z).
     { unfold zloop. destruct n as [|n']; [lia|]. rewrite <- cons_seq. cbn [map zlsum fold_right].
       replace (Datatypes.S n' - 1)%nat with n' by lia. fold (zlsum (map (zl c) (seq 1 n'))). lia. }
-    rewrite Z. unfold md. rewrite (zloop_total n c Hc Hn). fold md.
+    rewrite EZ. unfold md. rewrite (zloop_total n c Hc Hn). fold md.
     unfold all_false. destruct (forallb negb c); [reflexivity|]. rewrite upow_conj. reflexivity.
   Qed.
 
